@@ -62,6 +62,7 @@ type Machine struct {
 	nowT     *Term
 	inInit   int
 	uniq     []uniqEntry
+	onceDone map[*Node]bool
 	aeadLog  []aeadEnc
 	zoneOff  map[*Node]*Term
 	locOff   map[*Node]*Term
